@@ -20,6 +20,8 @@ import Golib.Proof.C07InPlace
 import Golib.Proof.C07FormatBuf
 import Golib.Proof.C07Trans
 import Golib.Proof.C07TransParse
+import Golib.Proof.C07TransParseU
+import Golib.Proof.C07TransParseV
 
 namespace Golib.C07
 
@@ -562,6 +564,86 @@ example : octalFormat [92, 65] = some (Tie.bytesOf [92#8, 49#8, 51#8, 52#8, 92#8
   constructor
   · decide
   · unfold IsBytes; decide
+
+/-- TIE: the same for `UnicodeParse` and `parse unicodeBody`; `utf8.EncodeRune(dst[e:], rune(n))` is
+`GoSem.utf8EncodeRuneAt` (all-or-panic write of the 1–4 bytes of the rune), tied here to the model's
+`writeAt … (Utf8.encodeRune n)`. -/
+theorem c07_trans_UnicodeParse (dst src : List (BitVec 8)) :
+    match parse unicodeBody (Tie.bytesOf dst) (Tie.bytesOf src) with
+    | .ok (n, d) => ∃ d', Golib.Gen.Trans.C07.UnicodeParse dst src = .ok ((n : Int), d') ∧ Tie.bytesOf d' = d
+    | .panic => Golib.Gen.Trans.C07.UnicodeParse dst src = .panic
+    | .fuel => False :=
+  (Tie.trans_UnicodeParse_rel dst src).tie
+
+/-- "parses ANY input safely" on the generated `UnicodeParse`: no panic, `0 ≤ n ≤ len(src)`, `len(dst)` kept, `dst[:n]` is
+the functional parser's output — for every `src` and every `dst` at least as long. -/
+theorem c07_trans_UnicodeParse_total (dst src : List (BitVec 8)) (h : src.length ≤ dst.length) :
+    ∃ (n : Nat) (d' : List (BitVec 8)), Golib.Gen.Trans.C07.UnicodeParse dst src = .ok ((n : Int), d') ∧
+      n ≤ src.length ∧ d'.length = dst.length ∧
+      Tie.bytesOf (d'.take n) = parseFun unicodeDec (Tie.bytesOf src) :=
+  Tie.gen_total .unicode _ Tie.trans_UnicodeParse_rel dst src h
+
+/-- Non-vacuity: `\\U0001F600` becomes the four bytes `F0 9F 98 80`; `\\U00110000` (above MaxRune) is kept. -/
+example : Golib.Gen.Trans.C07.UnicodeParse (List.replicate 10 0#8)
+      [92#8, 85#8, 48#8, 48#8, 48#8, 49#8, 70#8, 54#8, 48#8, 48#8]
+      = .ok (4, [0xF0#8, 0x9F#8, 0x98#8, 0x80#8, 0#8, 0#8, 0#8, 0#8, 0#8, 0#8]) ∧
+    Golib.Gen.Trans.C07.UnicodeParse (List.replicate 10 0#8)
+      [92#8, 85#8, 48#8, 48#8, 49#8, 49#8, 48#8, 48#8, 48#8, 48#8]
+      = .ok (10, [92#8, 85#8, 48#8, 48#8, 49#8, 49#8, 48#8, 48#8, 48#8, 48#8]) := by
+  constructor <;> decide +kernel
+
+/-- TIE: the same for `Utf16Parse` and `parse utf16Body` (both `parseUint` calls of a surrogate pair inside one loop
+round, every `continue`/`break` of the nested conditions); `utf16.DecodeRune` is `GoSem.utf16DecodeRune`, tied to the
+model's `utf16Dec`. -/
+theorem c07_trans_Utf16Parse (dst src : List (BitVec 8)) :
+    match parse utf16Body (Tie.bytesOf dst) (Tie.bytesOf src) with
+    | .ok (n, d) => ∃ d', Golib.Gen.Trans.C07.Utf16Parse dst src = .ok ((n : Int), d') ∧ Tie.bytesOf d' = d
+    | .panic => Golib.Gen.Trans.C07.Utf16Parse dst src = .panic
+    | .fuel => False :=
+  (Tie.trans_Utf16Parse_rel dst src).tie
+
+/-- "parses ANY input safely" on the generated `Utf16Parse`. -/
+theorem c07_trans_Utf16Parse_total (dst src : List (BitVec 8)) (h : src.length ≤ dst.length) :
+    ∃ (n : Nat) (d' : List (BitVec 8)), Golib.Gen.Trans.C07.Utf16Parse dst src = .ok ((n : Int), d') ∧
+      n ≤ src.length ∧ d'.length = dst.length ∧
+      Tie.bytesOf (d'.take n) = parseFun utf16DecF (Tie.bytesOf src) :=
+  Tie.gen_total .utf16 _ Tie.trans_Utf16Parse_rel dst src h
+
+/-- Non-vacuity: the pair `\\uD83D\\uDE00` becomes `F0 9F 98 80`; a lone high half `\\uD83Dx…` is kept. -/
+example : Golib.Gen.Trans.C07.Utf16Parse (List.replicate 12 0#8)
+      [92#8, 117#8, 68#8, 56#8, 51#8, 68#8, 92#8, 117#8, 68#8, 69#8, 48#8, 48#8]
+      = .ok (4, [0xF0#8, 0x9F#8, 0x98#8, 0x80#8, 0#8, 0#8, 0#8, 0#8, 0#8, 0#8, 0#8, 0#8]) ∧
+    Golib.Gen.Trans.C07.Utf16Parse (List.replicate 7 0#8) [92#8, 117#8, 68#8, 56#8, 51#8, 68#8, 120#8]
+      = .ok (7, [92#8, 117#8, 68#8, 56#8, 51#8, 68#8, 120#8]) := by
+  constructor <;> decide +kernel
+
+/-- The round-trip clause on the generated `UnicodeParse` / `Utf16Parse`: for every valid UTF-8 string `s`, the translated
+parser applied to the formatted bytes (`unicodeFormat`/`utf16Format`, the models of the Format functions) gives `s` back. -/
+theorem c07_trans_UnicodeParse_roundtrip (s : Bytes) (hv : Utf8.valid s = true) (src dst : List (BitVec 8))
+    (hf : unicodeFormat s = some (Tie.bytesOf src)) (h : src.length ≤ dst.length) :
+    ∃ (n : Nat) (d' : List (BitVec 8)), Golib.Gen.Trans.C07.UnicodeParse dst src = .ok ((n : Int), d') ∧
+      Tie.bytesOf (d'.take n) = s := by
+  obtain ⟨n, d', hg, -, -, hp⟩ := c07_trans_UnicodeParse_total dst src h
+  obtain ⟨out, ho, hr⟩ := unicode_fun_roundtrip s hv
+  rw [hf] at ho
+  cases ho
+  exact ⟨n, d', hg, by rw [hp, hr]⟩
+
+theorem c07_trans_Utf16Parse_roundtrip (s : Bytes) (hv : Utf8.valid s = true) (src dst : List (BitVec 8))
+    (hf : utf16Format s = some (Tie.bytesOf src)) (h : src.length ≤ dst.length) :
+    ∃ (n : Nat) (d' : List (BitVec 8)), Golib.Gen.Trans.C07.Utf16Parse dst src = .ok ((n : Int), d') ∧
+      Tie.bytesOf (d'.take n) = s := by
+  obtain ⟨n, d', hg, -, -, hp⟩ := c07_trans_Utf16Parse_total dst src h
+  obtain ⟨out, ho, hr⟩ := utf16_fun_roundtrip s hv
+  rw [hf] at ho
+  cases ho
+  exact ⟨n, d', hg, by rw [hp, hr]⟩
+
+/-- Non-vacuity: `utf16Format "😀"` as `BitVec 8` bytes, and the string is valid UTF-8. -/
+example : utf16Format [240, 159, 152, 128] =
+      some (Tie.bytesOf [92#8, 117#8, 68#8, 56#8, 51#8, 68#8, 92#8, 117#8, 68#8, 69#8, 48#8, 48#8]) ∧
+    Utf8.valid [240, 159, 152, 128] = true := by
+  constructor <;> decide
 -- END wave-9 tie block (trans-parse)
 
 end Golib.C07
